@@ -45,6 +45,10 @@ SumSeq(s) == IF s = <<>> THEN 0 ELSE Head(s) + SumSeq(Tail(s))
 RECURSIVE SumSet(_)
 SumSet(S) == IF S = {} THEN 0 ELSE LET x == CHOOSE x \in S : TRUE IN x + SumSet(S \ {x})
 
+(* sum of the second components of a set of <<key, value>> pairs (keys make equal values distinct) *)
+RECURSIVE SumSet0(_)
+SumSet0(S) == IF S = {} THEN 0 ELSE LET x == CHOOSE x \in S : TRUE IN x[2] + SumSet0(S \ {x})
+
 MaxSet(S) == CHOOSE m \in S : \A k \in S : k <= m
 MinSet(S) == CHOOSE m \in S : \A k \in S : m <= k
 
